@@ -50,6 +50,28 @@ impl InlineCache {
     }
   }
 
+  /// The number of property slots in this cache
+  pub fn property_slots(&self) -> usize {
+    self.property.len()
+  }
+
+  /// The number of invoke slots in this cache
+  pub fn invoke_slots(&self) -> usize {
+    self.invoke.len()
+  }
+
+  /// Grow this cache to hold at least the provided number of slots
+  /// keeping every existing entry
+  pub fn grow(&mut self, property_slots: usize, invoke_slots: usize) {
+    if property_slots > self.property.len() {
+      self.property.resize(property_slots, None);
+    }
+
+    if invoke_slots > self.invoke.len() {
+      self.invoke.resize(invoke_slots, None);
+    }
+  }
+
   /// Attempt to retrieve the property cache at a given slot
   /// for the provided class
   pub fn get_property_cache(&self, inline_slot: usize, class: ObjRef<Class>) -> Option<usize> {
